@@ -120,7 +120,7 @@ func newISM2400Band(repeaterCompatible bool) (Band, error) {
 				latest: map[int]MaxPayloadSize{
 					0: {M: 59, N: 51},
 					1: {M: 123, N: 115},
-					2: {M: 248, N: 220},
+					2: {M: 248, N: 240},
 					3: {M: 248, N: 240},
 					4: {M: 248, N: 240},
 					5: {M: 248, N: 240},
